@@ -111,3 +111,17 @@ claim(
     "Trusted: tomlkit.parse returns dict-like containers; os.path.isfile/open semantics. TOML semantics of multi-line values are outside the property (one-line values) and not decided.",
     "CFG edge-filtered reachability (write only under not-exists), loop-body path enumeration with constant propagation, call-graph closure for file writers",
 )
+claim(
+    "C05",
+    "other",
+    "Structure of the bucket lifecycle decided per backend: parameter -> stored field -> listed key tables of create / update / list / describe agree on the seven metadata fields; update_bucket writes only supplied fields (each write guarded by a test of the same parameter; sqlite's SET list built from the non-None pairs); delete_bucket removes the bucket from every container that holds per-bucket state - derived from the DDL foreign keys / the peewee models / MemoryStorage.__init__ - on every normal path; the Bucket-handle cache and the peewee key cache follow creation and deletion; not-found operations reach raise ValueError / KeyError.",
+    "Not decided: histories (stale handles, re-creation races) and equality of returned metadata values. Trusted: SQL/peewee semantics of the modelled statements; scoping of the deletes is C04's SCOPE rule.",
+    "writer/reader table composition over the embedded-SQL and peewee models; CFG must-pass-through for delete coverage, cache refresh and not-found raises",
+)
+claim(
+    "C14",
+    "other",
+    "The migration path is run by no test; decided statically: every metadata field BucketModel.json() emits is forwarded to create_bucket on the parameter of the same meaning; id typestate (legacy events carry AutoField ids, the sqlite bulk insert only UPDATEs id-bearing events, so ids must be cleared or events rebuilt before the sink); every bucket and event is visited (no skip, negative limit, no window, the fetched list is what is inserted); only non-writers (C12's computed writer set) are called on the legacy store; the trigger fires exactly for a new default-location file after the schema is committed, and the file name / version it looks for equals what PeeweeStorage uses (finite fold over testing in {True, False}).",
+    "Not decided: byte-for-byte immutability of the legacy file (opening it runs CREATE TABLE IF NOT EXISTS and auto_migrate), numeric fidelity of migrated instants.",
+    "call-site argument/parameter mapping, id typestate over derived source/sink facts, CFG path conditions for the trigger, finite constant folding of the two file-name expressions",
+)
